@@ -6,7 +6,7 @@ from __future__ import annotations
 from vmc import ops as _ops
 from vmc import simnet, stacks
 
-BENIGN = ("eintr", "short1", "cut_cr", "slow")
+BENIGN = ("eintr", "short1", "cut_cr", "slow", "slow2")
 
 
 def short(v, n=60):
